@@ -25,6 +25,7 @@ func checkC17(p *Prog, r *Report) {
 	rGuard := r.Rule("dot-guard", "every per-file operation is below the false edge of the dot-name test; non-regular files are skipped before opening")
 	rDet := r.Rule("determinism", "maps.Keys results are sorted before use, maps are not ranged directly, the first matching pattern wins")
 	rNL := r.Rule("parts-newline-terminated", "each converted file ends in a newline, appended by the per-file converter")
+	checkCtrlIGenerator(p, r, r.Rule("generator-is-the-conversion", "main's Ctrl+I generator returns Converter.From's payload and error and nothing else: nothing besides the conversion can make it fail, nothing stands in for it"))
 	rPass := r.Rule("pass-through-and-order", "an unmatched single file is returned unchanged without error; sources are converted in argument order")
 
 	fd := p.Func(sffPkg, "Converter", "fromDirectory")
@@ -775,6 +776,8 @@ func checkNewline(p *Prog, ru *Rule, fr, fd *ssa.Function) {
 	}
 	/* The directory loop writes the converter's result. */
 	wrote := false
+	var stale []*ssa.Call
+	staleWhat := ""
 	for _, f := range withAnons(fd) {
 		eachInstr(f, func(i ssa.Instruction) {
 			wc, ok := i.(*ssa.Call)
@@ -797,12 +800,32 @@ func checkNewline(p *Prog, ru *Rule, fr, fd *ssa.Function) {
 			if nil == part {
 				return
 			}
+			fromConv, other := false, ""
 			for _, x := range valueRoots(part, nil) {
-				if "call" == x.Kind && x.V.(*ssa.Call).Common().StaticCallee() == fr {
-					wrote = true
+				switch {
+				case "call" == x.Kind && x.V.(*ssa.Call).Common().StaticCallee() == fr:
+					fromConv = true
+				case "const" == x.Kind:
+				default:
+					other = x.String()
+				}
+			}
+			if fromConv && "" == other {
+				wrote = true
+			}
+			/* Anything else written into the same output (the payload the
+			function returns): a part remembered from an earlier call,
+			keyed by something which need not identify the file. */
+			if !fromConv && "" != other && isByteSlice(part.Type()) {
+				if _, isBuf := fieldBehind(wc.Common().Args[0]); nil == isBuf {
+					stale = append(stale, wc)
+					staleWhat = other
 				}
 			}
 		})
+	}
+	for _, wc := range stale {
+		ru.Bad(fnName(fd)+":writes-converted-part:other-source", posOf(wc), "the directory loop also appends bytes which are not the per-file converter's result of this call (%s): a remembered conversion stands in for converting the file as it is now", staleWhat)
 	}
 	if wrote {
 		ru.OK(fnName(fd)+":writes-converted-part", fd.Pos(), "each part written is the per-file converter's (newline-terminated) result")
@@ -950,4 +973,144 @@ func rootedInParams(v ssa.Value, fn *ssa.Function) bool {
 		}
 	}
 	return false
+}
+
+// checkCtrlIGenerator: the function main hands to opshell.New as the Ctrl+I
+// generator (also called for -print-ctrl-i) is Converter.From and nothing
+// else which can fail or stand in for it: every payload it returns with a
+// nil error is what From returned in that very call, and every error it
+// returns is From's (wrapped or not) or a fresh error for a condition of its
+// own configuration (no source named).  A look at the directory beforehand
+// (a size for the log) whose failure is returned makes a stray file which no
+// pattern matches fail the generation; a cache answers with something From
+// did not just produce.
+func checkCtrlIGenerator(p *Prog, r *Report, ru *Rule) {
+	rm := p.Func("", "", "rmain")
+	if nil == rm {
+		ru.Unproven("main.rmain", token.NoPos, "not found")
+		return
+	}
+	/* The generators: functions (literals) of package main which call
+	Converter.From and return ([]byte, error). */
+	var gens []*ssa.Function
+	for _, fn := range p.Funcs() {
+		if nil == fn.Pkg || fn.Pkg != rm.Pkg || 2 != fn.Signature.Results().Len() || !isErrorType(fn.Signature.Results().At(1).Type()) {
+			continue
+		}
+		if !isByteSlice(fn.Signature.Results().At(0).Type()) {
+			continue
+		}
+		has := false
+		eachInstr(fn, func(i ssa.Instruction) {
+			if cc := callCommon(i); nil != cc && nil != cc.StaticCallee() && "From" == cc.StaticCallee().Name() && "Converter" == recvTypeName(cc.StaticCallee()) {
+				has = true
+			}
+		})
+		if has {
+			gens = append(gens, fn)
+		}
+	}
+	if 0 == len(gens) {
+		ru.Unproven("main:ctrl-i-generator", rm.Pos(), "no function of package main returning ([]byte, error) calls Converter.From")
+		return
+	}
+	for _, g := range gens {
+		c := fnName(g) + ":generator"
+		var from *ssa.Call
+		nfrom := 0
+		eachInstr(g, func(i ssa.Instruction) {
+			if cl, ok := i.(*ssa.Call); ok {
+				if sc := cl.Common().StaticCallee(); nil != sc && "From" == sc.Name() && "Converter" == recvTypeName(sc) {
+					from = cl
+					nfrom++
+				}
+			}
+		})
+		if 1 != nfrom {
+			ru.Unproven(c, g.Pos(), "%d calls of Converter.From in the generator, one expected", nfrom)
+			continue
+		}
+		fromErr := extractOf(from, 1)
+		bad := 0
+		eachInstr(g, func(i ssa.Instruction) {
+			ret, ok := i.(*ssa.Return)
+			if !ok || 2 != len(ret.Results) || (nil != g.Recover && ret.Block() == g.Recover) {
+				return
+			}
+			ev := retVal(ret, 1)
+			if isNilConst(ev) || (nil != fromErr && ev == ssa.Value(fromErr) && func() bool {
+				for _, t := range nilTestsOf(g, fromErr) {
+					if edgeDominates(t.If, t.NilSucc, ret) {
+						return true
+					}
+				}
+				return false
+			}()) {
+				/* Success: the payload is From's. */
+				okPayload := true
+				seen := map[ssa.Value]bool{}
+				var walk func(v ssa.Value)
+				walk = func(v ssa.Value) {
+					v = stripConv(v, false)
+					if seen[v] {
+						return
+					}
+					seen[v] = true
+					switch x := v.(type) {
+					case *ssa.Phi:
+						for _, e := range x.Edges {
+							walk(e)
+						}
+						return
+					case *ssa.Extract:
+						if x.Tuple == ssa.Value(from) && 0 == x.Index {
+							return
+						}
+					case *ssa.UnOp:
+						/* A variable of this very call (a named result):
+						what was put into it.  A variable of the enclosing
+						function lives from call to call. */
+						if al, isAl := x.X.(*ssa.Alloc); isAl && token.MUL == x.Op && al.Parent() == g {
+							captured := false
+							for _, ref := range *al.Referrers() {
+								if _, isMC := ref.(*ssa.MakeClosure); isMC {
+									captured = true
+								}
+							}
+							sts := storesTo(al)
+							if !captured && len(sts) > 0 {
+								for _, st := range sts {
+									walk(st.Val)
+								}
+								return
+							}
+						}
+					}
+					okPayload = false /* a variable kept between calls, nil, … */
+				}
+				walk(retVal(ret, 0))
+				if !okPayload {
+					bad++
+					ru.Bad(c+":payload", posOf(ret), "the generator can return, with a nil error, something other than what Converter.From returned in this call (%s): a remembered or empty payload stands in for the conversion (an unreadable or missing source then goes unreported)", rootsString(valueRoots(retVal(ret, 0), nil)))
+				}
+				return
+			}
+			/* Failure: whose? */
+			if nil != p.globalOnce(stripConv(resolveCell(ev), false)) {
+				return /* a sentinel error of the program's own */
+			}
+			for _, src := range errorSources(ev, 0) {
+				switch {
+				case nil != src.Call && ssa.Value(src.Call) == ssa.Value(from):
+				case "fresh" == src.Name:
+				default:
+					bad++
+					ru.Bad(c+":failure", posOf(ret), "the generator can fail with an error of %s, not of Converter.From: something it looks at besides the conversion (every entry of the directory, say) can make Ctrl+I fail although no pattern matches it", src.Name)
+				}
+			}
+		})
+		if 0 == bad {
+			ru.OK(c, g.Pos(), "returns Converter.From's payload and error (or a fresh error of its own configuration) and nothing else")
+		}
+	}
 }
